@@ -683,5 +683,39 @@ func (g *clientGen) fixedCases() []KCase {
 		}
 		out = append(out, g.socketCases()...)
 	}
+	// sizes a generated history does not reach by chance (all client properties): request payloads around a page
+	// and around the maximum message length, long queues of unacknowledged requests, long rule listings, long
+	// runs of unsolicited events in front of a reply
+	for _, n := range []int{0, 1, 3, 4, 5, 4079, 4080, 4081, 4095, 4096, 4097, 8953, 8954, 8955, 8969, 8970} {
+		op := KOp{K: "addrule", Rule: hex.EncodeToString(g.bytesN(n)), Plans: []simkernel.Plan{{Items: []simkernel.Item{g.ack(0)}}}}
+		out = append(out, KCase{Kind: "history", BufLen: 64, Ops: []KOp{op, {K: "deleterule", Rule: op.Rule, Plans: []simkernel.Plan{{Items: []simkernel.Item{g.ack(0)}}}}}})
+	}
+	for _, n := range []int{8, 9, 16, 17, 64, 65, 255, 256, 257, 300} {
+		c := KCase{Kind: "history", BufLen: 64}
+		for i := 0; i < n; i++ {
+			e := int32(0)
+			if i == n-2 {
+				e = 13 // the first kernel error sits deep in the queue
+			}
+			c.Ops = append(c.Ops, KOp{K: "setratelimit", V: uint32(i), WM: 2, Plans: []simkernel.Plan{{Items: []simkernel.Item{g.ack(e)}}}})
+		}
+		c.Ops = append(c.Ops, KOp{K: "wait"}, KOp{K: "wait"}, KOp{K: "setenabled", B: true, WM: 1, Plans: []simkernel.Plan{{Items: []simkernel.Item{g.ack(0)}}}}, KOp{K: "wait"})
+		out = append(out, c)
+	}
+	for _, n := range []int{64, 255, 256, 257, 300} {
+		items := []simkernel.Item{g.ack(0)}
+		for i := 0; i < n; i++ {
+			items = append(items, g.ownMsg(1013, g.bytesN(1+i%90), 0))
+		}
+		items = append(items, g.ownMsg(3, nil, 0))
+		out = append(out, KCase{Kind: "history", BufLen: 64, Ops: []KOp{{K: "getrules", Plans: []simkernel.Plan{{Items: items}}}, {K: "receive", Pre: []simkernel.Item{g.event()}}}})
+		// ... and that many unsolicited events in front of a plain acknowledgement
+		var ev []simkernel.Item
+		for i := 0; i < n; i++ {
+			ev = append(ev, g.event())
+		}
+		ev = append(ev, g.ack(0))
+		out = append(out, KCase{Kind: "history", BufLen: 64, Ops: []KOp{{K: "setenabled", B: true, WM: 1, Plans: []simkernel.Plan{{Items: ev}}}}})
+	}
 	return out
 }
